@@ -78,6 +78,16 @@ func c19R1(c *Ctx) {
 			pre = true
 		}
 	}
+	pre2 := false
+	for _, ci := range callsIn(so, idIs("bytes.Contains")) {
+		if globalName(ci.Common().Args[1]) == "zmodemCanNotOpenFile" && isVar("buf")(ci.Common().Args[0]) {
+			pre2 = true
+		}
+		if globalName(ci.Common().Args[1]) == "zmodemCancelSubSequence" && !isVar("buf")(ci.Common().Args[0]) {
+			pre = false
+		}
+	}
+	c.check(pre2, "handleServerOutput/pre-start-cannot-open", c.pos(so.Pos()), "before the helper runs, the remote side's 'cannot open' message is looked for in the chunk", "before the helper runs, 'cannot open' is not looked for in the chunk (arguments swapped or test gone): the session keeps waiting for a helper")
 	c.check(pre, "handleServerOutput/pre-start-cancel-marker", c.pos(so.Pos()), "before the helper runs, a remote cancel is recognised by the five-CAN marker", "before the helper runs, a remote cancel is not looked for with the five-CAN marker (an 8-CAN abort or a split sequence leaves the session waiting)")
 }
 
